@@ -500,7 +500,8 @@ def run(ctx: Ctx) -> int:
     session.live(ctx, 3, 2, name="C09_live_v3_c2", calls=2, hs="HSValid" if ctx.quick else "HSSome", data="DataValid" if ctx.quick else "DataSome", life=True)
     session.live(ctx, 2, 3, name="C09_live_v2_c2", calls=2, data="V2All", life=True)
     if not ctx.quick:
-        session.live(ctx, 3, 3, name="C09_live_v3_r3_c2", calls=2, hs="HSSome", data="DataNoiseSome", life=True)
+        session.live(ctx, 3, 3, name="C09_live_v3_r3_c2", calls=2, hs="HSValid", data="DataValid", life=True)      # (HSSome x DataNoiseSome: 8.6 M states, 22 min - passed once, too slow to keep)
+        session.live(ctx, 3, 3, name="C09_live_v3_r3_c1_all", calls=1, hs="HSAll", data="DataNoise", life=True)
     runs = collect(ctx)
     tot = 0
     for ver in (2, 3):
